@@ -352,9 +352,9 @@ impl<'a> Gen<'a> {
                 let n = 1 + self.rng.below(4) as usize;
                 let k = 1 + self.rng.below(n as u64) as usize;
                 let keys: Vec<Key> = (0..n).map(|_| self.key()).collect();
-                let sorted = self.rng.chance(1, 4);
+                let sorted = self.rng.chance(1, 3);
                 // now and then try the multisig flavour the context forbids: it must be rejected
-                let wrong_flavour = self.rng.chance(1, 8);
+                let wrong_flavour = self.rng.chance(1, 5);
                 if self.ci.tap != wrong_flavour {
                     let th = Threshold::new(k, keys).ok()?;
                     if sorted {
